@@ -471,7 +471,7 @@ fn build_unit(d: &mut gw::Dwarf, exp: &mut Expect, cfg: &Cfg, u: usize) {
     unit.get_mut(b1).set(gimli::DW_AT_byte_size, AV::Udata(8));
     let bases = [b0, b1];
 
-    let mut set_expr = |unit: &mut gw::Unit, exp: &mut Expect, id: gw::UnitEntryId, at: gimli::DwAt, ops: Vec<XOp>| {
+    let set_expr = |unit: &mut gw::Unit, exp: &mut Expect, id: gw::UnitEntryId, at: gimli::DwAt, ops: Vec<XOp>| {
         exp.expr("expr", &ops, cfg);
         unit.get_mut(id).set(at, AV::Exprloc(build_expr(&ops, &bases)));
     };
@@ -689,7 +689,7 @@ fn unit_extents(info: &[u8], big: bool) -> Vec<(u64, u64)> {
         let first = rd(info, off, 4, big);
         let (len, lsz) = if first == 0xffff_ffff { (rd(info, off + 4, 8, big), 12) } else { (first, 4) };
         out.push((off as u64, len + lsz));
-        off += len as usize + lsz;
+        off += (len + lsz) as usize;
     }
     out
 }
@@ -736,7 +736,7 @@ fn build_aranges(cfg: &Cfg, units: &[(u64, u64)]) -> Vec<u8> {
 /// A version <= 4 line program with DW_LNE_define_file, an unknown extended
 /// opcode and an unknown standard opcode with two operands; every string and
 /// operand position is recorded.
-fn build_xline(cfg: &Cfg, base: usize, known: &mut Vec<(String, usize, usize)>) -> Vec<u8> {
+fn build_xline(cfg: &Cfg, base: usize, exp: &mut Expect, known: &mut Vec<(String, usize, usize)>) -> Vec<u8> {
     let version = cfg.version.min(4);
     let pre = if cfg.fmt64 { 12 } else { 4 } + 2 + cfg.word(); // length, version, header_length
     let mut h = Enc::new(cfg.big); // after header_length
@@ -749,11 +749,13 @@ fn build_xline(cfg: &Cfg, base: usize, known: &mut Vec<(String, usize, usize)>) 
     h.bytes(&[0, 1, 1, 1, 1, 0, 0, 0, 1, 0, 0, 1, 2]);
     for (i, dname) in ["xline_dir_alpha", "/xline/dir/beta"].iter().enumerate() {
         known.push((format!("xline.dir{}", i + 1), base + pre + h.len(), dname.len()));
+        exp.bytes("line-path", dname.as_bytes(), true);
         h.cstr(dname.as_bytes());
     }
     h.u8(0);
     for (i, (f, dir)) in [("xline_file_one.c", 1u64), ("xline_file_two.h", 2)].iter().enumerate() {
         known.push((format!("xline.file{}", i + 1), base + pre + h.len(), f.len()));
+        exp.bytes("line-path", f.as_bytes(), true);
         h.cstr(f.as_bytes()).uleb(*dir).uleb(5 + i as u64).uleb(900 + i as u64);
     }
     h.u8(0);
@@ -790,15 +792,21 @@ fn generate(cfg: &Cfg) -> Result<Gen, String> {
     d.write(&mut s).map_err(|e| format!("write::Dwarf::write: {:?}", e))?;
     build_frames(cfg, false).write_debug_frame(&mut s.debug_frame).map_err(|e| format!("write_debug_frame: {:?}", e))?;
     build_frames(cfg, true).write_eh_frame(&mut s.eh_frame).map_err(|e| format!("write_eh_frame: {:?}", e))?;
-    for o in cfi_exprs(cfg) {
-        exp.expr("expr-cfi", &o, cfg);
+    // CFI expressions are written with the CIE's encoding, whose version is a
+    // CFI version (1, 3, 4): the writer picks the GNU opcodes there.
+    let cfi_cfg = Cfg { version: 4, ..*cfg };
+    for (k, o) in cfi_exprs(cfg).iter().enumerate() {
+        if k == 4 && cfg.variant == 0 {
+            continue; // only used by the CIE of variants 1, 2
+        }
+        exp.expr("expr-cfi", o, &cfi_cfg);
     }
     let mut known = vec![];
     let info = s.debug_info.0.slice().to_vec();
     let units = unit_extents(&info, cfg.big);
     let mut line = s.debug_line.0.slice().to_vec();
     let xline_off = line.len();
-    let x = build_xline(cfg, xline_off, &mut known);
+    let x = build_xline(cfg, xline_off, &mut exp, &mut known);
     line.extend_from_slice(&x);
     let pubnames = build_pub(cfg, &units, "pubnames", "public_function", "pubnames-name", &mut exp, &mut known);
     let pubtypes = build_pub(cfg, &units, "pubtypes", "public_type", "pubtypes-name", &mut exp, &mut known);
